@@ -31,6 +31,7 @@ def common_opts():
     o.inheritance = False
     o.one_closed_enum_per_decl = True
     o.enum_first_value = True
+    o.array_modifier = False   # the Rust back end ignores array size modifiers (KF-C03-array-size-modifier): not a common construct
     return o
 
 
